@@ -120,7 +120,8 @@ func jsonEqual(a, b interface{}) bool {
 }
 
 type c16Case struct {
-	Doc string `json:"document"` // Go-quoted
+	Doc       string `json:"document"` // Go-quoted
+	Placement int    `json:"file_placement,omitempty"`
 }
 
 type c16Verdict int
@@ -132,9 +133,15 @@ const (
 )
 
 // c16Text runs one document text against the oracle. class says what the statement demands.
+// c16Placement: 0 = the document's file alone; other indexes of `placements` put it behind other files
+var c16Placement = 0
+
 func c16Text(res *explore.Result, doc string, verdict c16Verdict, want interface{}, why string, verbose bool) {
-	cs := c16Case{strconv.Quote(doc)}
-	fs, _, r, _ := place(placements[0], "f", []byte(doc))
+	cs := c16Case{strconv.Quote(doc), c16Placement}
+	fs, _, r, _ := place(placements[c16Placement], "f", []byte(doc))
+	if c16Placement != 0 {
+		why += "; file " + placements[c16Placement].name
+	}
 	ctx := parsley.NewContext(fs, r)
 	var val interface{}
 	var err error
@@ -484,6 +491,12 @@ func c16Run(env *explore.Env) *explore.Result {
 		structMax = 11
 	}
 	c16Structured(res, env, structMax)
+	// the same documents as second file of a set (what the reader and the file know about their own place must not matter)
+	for _, pi := range []int{2, 6} {
+		c16Placement = pi
+		c16Structured(res, env, structMax-2)
+	}
+	c16Placement = 0
 	for i, doc := range c16Families() {
 		if !env.Mine(int64(i)) {
 			continue
@@ -518,6 +531,9 @@ func c16Replay(raw stdjson.RawMessage) *explore.Result {
 	if err != nil {
 		res.Notes = append(res.Notes, "bad document")
 		return res
+	}
+	if c.Placement > 0 && c.Placement < len(placements) {
+		c16Placement = c.Placement
 	}
 	// re-derive the verdict the way the enumeration does when the document is a token string; otherwise valid => equal
 	want, ok, truncated, inSubset := stdDecode(doc)
